@@ -32,7 +32,7 @@ impl Prop for C02 {
          Among big-endian buckets with identical name lists the order is read from the produced table (any fixed tie-break is accepted, interpretation 3). (b) determinism: the same content built in >= 4 \
          different call orders (fresh archives = fresh hash states, one of them on another thread), each serialized twice, must give one byte string; per-case output digests are also compared \
          between the worker processes of the two builds. (c) byte stability: serialize(from_bytes(x)) == x. (d) a conforming non-canonical layout of the same content (reference writer) parsed and \
-         re-serialized gives the canonical bytes. Thin slices use large archives (up to 24 000 bytes / 1 200 cells / 500 labels; thorough 300 000 / 70 000 / 5 000) and strings of up to 36 KiB; the string pool holds proper endings and beginnings of other pool strings. Non-trivial: >= 2 string cells or >= 2 labels. Distinct = distinct case value."
+         re-serialized gives the canonical bytes. Thin slices use large archives (up to 24 000 bytes / 1 200 cells / 500 labels; thorough 120 000 / 20 000 / 3 000) and strings of up to 36 KiB; the string pool holds proper endings and beginnings of other pool strings. Non-trivial: >= 2 string cells or >= 2 labels. Distinct = distinct case value."
             .into()
     }
     fn assumptions() -> Vec<String> {
@@ -54,9 +54,9 @@ impl Prop for C02 {
         let (max_len, max_cells, max_labels) = tier.pick((64, 10, 10), (1024, 60, 60));
         let small = content_strategy(48, 8, 10, false);
         let big = content_strategy(max_len, max_cells, max_labels, false);
-        let (l_len, l_cells, l_labels) = tier.pick((24_000, 1_200, 500), (300_000, 70_000, 5_000));
+        let (l_len, l_cells, l_labels) = tier.pick((24_000, 1_200, 500), (120_000, 20_000, 3_000));
         let large = content_strategy(l_len, l_cells, l_labels, false);
-        (prop_oneof![60 * tier.pick(1u32, 8) => small, 20 * tier.pick(1u32, 8) => big, 1 => large], proptest::collection::vec(any::<u64>(), 4..6), any::<u64>())
+        (prop_oneof![60 * tier.pick(1u32, 16) => small, 20 * tier.pick(1u32, 16) => big, 1 => large], proptest::collection::vec(any::<u64>(), 4..6), any::<u64>())
             .prop_map(|(content, order_seeds, layout_seed)| Case { content, order_seeds, layout_seed })
             .boxed()
     }
